@@ -2,15 +2,15 @@ package main
 
 import (
 	"bufio"
-	"sync"
-	"time"
-	"math"
-	"os"
 	"fmt"
 	"io"
+	"math"
+	"os"
 	"os/exec"
 	"strconv"
 	"strings"
+	"sync"
+	"time"
 )
 
 // ---- terms (hash-consed SMT-LIB expressions over BV and Bool) ----
@@ -464,7 +464,6 @@ func (s *Solver) declare(t *Term) {
 		}
 	}
 }
-
 
 func symbolsOf(s string) []*Term {
 	var out []*Term
